@@ -624,3 +624,65 @@ func TestD23GrpcBasicComputeWithoutParams(t *testing.T) {
 		}
 	}()
 }
+
+// ---- D24 (C15): server-side CSV (objectstorage file:// references, enabled with --use-file-uri) ----
+func newEchoFileURI(t *testing.T) *echo.Echo {
+	e := echo.New()
+	e.HideBanner = true
+	srv, err := oapiserver.NewStrictServerImpl(context.Background())
+	if err != nil {
+		t.Fatal(err)
+	}
+	srv.UseFileURI = true
+	openapi.RegisterHandlersWithBaseURL(e, openapi.NewStrictHandler(srv, nil), "/basic/v1")
+	return e
+}
+
+func TestD24ServerSideCsvNegativeIndexAndReadErrors(t *testing.T) {
+	e := newEchoFileURI(t)
+	dir := t.TempDir()
+	write := func(name, text string) string {
+		p := filepath.Join(dir, name)
+		if err := os.WriteFile(p, []byte(text), 0o644); err != nil {
+			t.Fatal(err)
+		}
+		return p
+	}
+	good := write("good.csv", "i,j,v\n0,1,1\n1,0,1\n")
+	body := func(lt string) string {
+		return `{"localTrust":{"scheme":"objectstorage","url":"file://` + lt + `"}}`
+	}
+	if code, b, p := doHTTP(e, "POST", "/basic/v1/compute", body(good)); p != nil || code != 200 {
+		t.Fatalf("well-formed server-side CSV -> %d %s %v", code, b, p)
+	}
+	for name, text := range map[string]string{
+		"negrow.csv":  "i,j,v\n-1,0,1\n",
+		"negcol.csv":  "i,j,v\n0,-1,1\n",
+		"badquote.csv": "i,j,v\n0,1,1\n\"0,1,2\n",
+	} {
+		code, b, p := doHTTP(e, "POST", "/basic/v1/compute", body(write(name, text)))
+		if p != nil {
+			t.Errorf("%s: handler panics: %v", name, p)
+		} else if code != 400 {
+			t.Errorf("%s -> %d %s, want 400", name, code, b)
+		}
+	}
+	ptBad := write("negvec.csv", "i,v\n-1,1\n")
+	code, b, p := doHTTP(e, "POST", "/basic/v1/compute", `{"localTrust":{"scheme":"objectstorage","url":"file://`+good+`"},"preTrust":{"scheme":"objectstorage","url":"file://`+ptBad+`"}}`)
+	if p != nil {
+		t.Errorf("negative index in a server-side pre-trust CSV: handler panics: %v", p)
+	} else if code != 400 {
+		t.Errorf("negative index in a server-side pre-trust CSV -> %d %s, want 400", code, b)
+	}
+}
+
+// ---- D25 (C15) ----
+func TestD25ServerSideCsvEmptyMatrixIs400(t *testing.T) {
+	e := newEchoFileURI(t)
+	p := filepath.Join(t.TempDir(), "empty.csv")
+	_ = os.WriteFile(p, []byte("i,j,v\n"), 0o644)
+	code, b, pn := doHTTP(e, "POST", "/basic/v1/compute", `{"localTrust":{"scheme":"objectstorage","url":"file://`+p+`"}}`)
+	if pn != nil || code != 400 {
+		t.Fatalf("empty server-side trust matrix CSV -> %d %s %v, want 400", code, b, pn)
+	}
+}
